@@ -58,24 +58,33 @@ Record st := mkSt {
   (* history (ghost) *)
   acc : list nat;                 (* ids in the order in which they were enqueued *)
   hand : list nat;                (* ids in the order in which Read handed them to a consumer *)
-  fin : list (nat * Z)            (* (id, err) in the order in which OnDone was called *)
+  fin : list (nat * Z);           (* (id, err) in the order in which OnDone was called *)
+  (* blockingDonePool (sync.Pool) of the in-memory queue: objects are numbered in order of creation *)
+  pool : list nat;                (* objects currently in the pool *)
+  held : list (nat * nat);        (* request id -> its blockingDone, from Get until Put (for ever if abandoned) *)
+  nobj : nat;                     (* number of objects created so far (pool.New) *)
+  pick : nat                      (* which pooled object the next Get returns (sync.Pool: any; chosen by LPick) *)
 }.
 
-Definition init : st := mkSt 0 [] [] false 0 false Free [] [] [] [] [] [].
+Definition init : st := mkSt 0 [] [] false 0 false Free [] [] [] [] [] [] [] [] 0%nat 0%nat.
 
-Definition set_size v s := mkSt v (items s) (inflight s) (stopped s) (waiting s) (tok s) (lock s) (prods s) (cancelled s) (results s) (acc s) (hand s) (fin s).
-Definition set_items v s := mkSt (size s) v (inflight s) (stopped s) (waiting s) (tok s) (lock s) (prods s) (cancelled s) (results s) (acc s) (hand s) (fin s).
-Definition set_inflight v s := mkSt (size s) (items s) v (stopped s) (waiting s) (tok s) (lock s) (prods s) (cancelled s) (results s) (acc s) (hand s) (fin s).
-Definition set_stopped v s := mkSt (size s) (items s) (inflight s) v (waiting s) (tok s) (lock s) (prods s) (cancelled s) (results s) (acc s) (hand s) (fin s).
-Definition set_waiting v s := mkSt (size s) (items s) (inflight s) (stopped s) v (tok s) (lock s) (prods s) (cancelled s) (results s) (acc s) (hand s) (fin s).
-Definition set_tok v s := mkSt (size s) (items s) (inflight s) (stopped s) (waiting s) v (lock s) (prods s) (cancelled s) (results s) (acc s) (hand s) (fin s).
-Definition set_lock v s := mkSt (size s) (items s) (inflight s) (stopped s) (waiting s) (tok s) v (prods s) (cancelled s) (results s) (acc s) (hand s) (fin s).
-Definition set_prods v s := mkSt (size s) (items s) (inflight s) (stopped s) (waiting s) (tok s) (lock s) v (cancelled s) (results s) (acc s) (hand s) (fin s).
-Definition set_cancelled v s := mkSt (size s) (items s) (inflight s) (stopped s) (waiting s) (tok s) (lock s) (prods s) v (results s) (acc s) (hand s) (fin s).
-Definition set_results v s := mkSt (size s) (items s) (inflight s) (stopped s) (waiting s) (tok s) (lock s) (prods s) (cancelled s) v (acc s) (hand s) (fin s).
-Definition set_acc v s := mkSt (size s) (items s) (inflight s) (stopped s) (waiting s) (tok s) (lock s) (prods s) (cancelled s) (results s) v (hand s) (fin s).
-Definition set_hand v s := mkSt (size s) (items s) (inflight s) (stopped s) (waiting s) (tok s) (lock s) (prods s) (cancelled s) (results s) (acc s) v (fin s).
-Definition set_fin v s := mkSt (size s) (items s) (inflight s) (stopped s) (waiting s) (tok s) (lock s) (prods s) (cancelled s) (results s) (acc s) (hand s) v.
+Definition set_size v s := mkSt v (items s) (inflight s) (stopped s) (waiting s) (tok s) (lock s) (prods s) (cancelled s) (results s) (acc s) (hand s) (fin s) (pool s) (held s) (nobj s) (pick s).
+Definition set_items v s := mkSt (size s) v (inflight s) (stopped s) (waiting s) (tok s) (lock s) (prods s) (cancelled s) (results s) (acc s) (hand s) (fin s) (pool s) (held s) (nobj s) (pick s).
+Definition set_inflight v s := mkSt (size s) (items s) v (stopped s) (waiting s) (tok s) (lock s) (prods s) (cancelled s) (results s) (acc s) (hand s) (fin s) (pool s) (held s) (nobj s) (pick s).
+Definition set_stopped v s := mkSt (size s) (items s) (inflight s) v (waiting s) (tok s) (lock s) (prods s) (cancelled s) (results s) (acc s) (hand s) (fin s) (pool s) (held s) (nobj s) (pick s).
+Definition set_waiting v s := mkSt (size s) (items s) (inflight s) (stopped s) v (tok s) (lock s) (prods s) (cancelled s) (results s) (acc s) (hand s) (fin s) (pool s) (held s) (nobj s) (pick s).
+Definition set_tok v s := mkSt (size s) (items s) (inflight s) (stopped s) (waiting s) v (lock s) (prods s) (cancelled s) (results s) (acc s) (hand s) (fin s) (pool s) (held s) (nobj s) (pick s).
+Definition set_lock v s := mkSt (size s) (items s) (inflight s) (stopped s) (waiting s) (tok s) v (prods s) (cancelled s) (results s) (acc s) (hand s) (fin s) (pool s) (held s) (nobj s) (pick s).
+Definition set_prods v s := mkSt (size s) (items s) (inflight s) (stopped s) (waiting s) (tok s) (lock s) v (cancelled s) (results s) (acc s) (hand s) (fin s) (pool s) (held s) (nobj s) (pick s).
+Definition set_cancelled v s := mkSt (size s) (items s) (inflight s) (stopped s) (waiting s) (tok s) (lock s) (prods s) v (results s) (acc s) (hand s) (fin s) (pool s) (held s) (nobj s) (pick s).
+Definition set_results v s := mkSt (size s) (items s) (inflight s) (stopped s) (waiting s) (tok s) (lock s) (prods s) (cancelled s) v (acc s) (hand s) (fin s) (pool s) (held s) (nobj s) (pick s).
+Definition set_acc v s := mkSt (size s) (items s) (inflight s) (stopped s) (waiting s) (tok s) (lock s) (prods s) (cancelled s) (results s) v (hand s) (fin s) (pool s) (held s) (nobj s) (pick s).
+Definition set_hand v s := mkSt (size s) (items s) (inflight s) (stopped s) (waiting s) (tok s) (lock s) (prods s) (cancelled s) (results s) (acc s) v (fin s) (pool s) (held s) (nobj s) (pick s).
+Definition set_fin v s := mkSt (size s) (items s) (inflight s) (stopped s) (waiting s) (tok s) (lock s) (prods s) (cancelled s) (results s) (acc s) (hand s) v (pool s) (held s) (nobj s) (pick s).
+Definition set_pool v s := mkSt (size s) (items s) (inflight s) (stopped s) (waiting s) (tok s) (lock s) (prods s) (cancelled s) (results s) (acc s) (hand s) (fin s) v (held s) (nobj s) (pick s).
+Definition set_held v s := mkSt (size s) (items s) (inflight s) (stopped s) (waiting s) (tok s) (lock s) (prods s) (cancelled s) (results s) (acc s) (hand s) (fin s) (pool s) v (nobj s) (pick s).
+Definition set_nobj v s := mkSt (size s) (items s) (inflight s) (stopped s) (waiting s) (tok s) (lock s) (prods s) (cancelled s) (results s) (acc s) (hand s) (fin s) (pool s) (held s) v (pick s).
+Definition set_pick v s := mkSt (size s) (items s) (inflight s) (stopped s) (waiting s) (tok s) (lock s) (prods s) (cancelled s) (results s) (acc s) (hand s) (fin s) (pool s) (held s) (nobj s) v.
 
 (* ---- the thread map ------------------------------------------------------------------------ *)
 Fixpoint pget (p : nat) (m : list (nat * pstate)) : option pstate :=
@@ -112,9 +121,33 @@ Definition signal (k : pending) (s : st) : st :=
     if tok s1 then set_lock (BSend k) s1
     else deliver k (set_tok true s1).
 
+(* ---- blockingDonePool (memory_queue.go; the persistent queue's indexDonePool is never Put to) -------
+   sync.Pool.Get returns ANY pooled object or a new one: the environment label [LPick b] chooses which pooled
+   object the next Get returns; if that object is not in the pool, Get calls New. *)
+Fixpoint rem_nat (b : nat) (l : list nat) : list nat :=
+  match l with [] => [] | x :: r => if Nat.eqb x b then r else x :: rem_nat b r end.
+Fixpoint hget (id : nat) (h : list (nat * nat)) : option nat :=
+  match h with [] => None | (q, b) :: r => if Nat.eqb q id then Some b else hget id r end.
+Fixpoint hrem (id : nat) (h : list (nat * nat)) : list (nat * nat) :=
+  match h with [] => [] | (q, b) :: r => if Nat.eqb q id then r else (q, b) :: hrem id r end.
+
+(* done := blockingDonePool.Get(); done.reset(elSize, mq)  — for request p *)
+Definition pool_get (p : nat) (s : st) : st :=
+  if memb (pick s) (pool s)
+  then set_held (held s ++ [(p, pick s)]) (set_pool (rem_nat (pick s) (pool s)) s)
+  else set_held (held s ++ [(p, nobj s)]) (set_nobj (S (nobj s)) s).
+
+(* blockingDonePool.Put(<the object of request id>) *)
+Definition pool_put (id : nat) (s : st) : st :=
+  match hget id (held s) with
+  | Some b => set_held (hrem id (held s)) (set_pool (b :: pool s) s)
+  | None => s
+  end.
+
 (* ---- Offer ---------------------------------------------------------------------------------- *)
 (* tail of memoryQueue.add / persistentQueue.putInternal once the request fits *)
-Definition enqueue (c : cfg) (p : nat) (sz : Z) (s : st) : st :=
+Definition enqueue (c : cfg) (p : nat) (sz : Z) (s0 : st) : st :=
+  let s := match kind c with Mem => pool_get p s0 | Pers => s0 end in
   let s1 := set_size (size s + sz) s in
   let s2 := set_items (items s1 ++ [(p, sz)]) s1 in
   let s3 := set_acc (acc s2 ++ [p]) s2 in
@@ -189,7 +222,12 @@ Definition done (c : cfg) (id : nat) (e : Z) (s : st) : option (st * Z) :=
   | Some sz =>
       let s1 := set_fin (fin s ++ [(id, e)]) (set_inflight (remove_id id (inflight s)) s) in
       let s2 := match kind c with
-                | Mem => signal (if wfr c then PendRes id e else PendNone) (set_size (size s1 - sz) s1)
+                | Mem =>
+                    (* non-wait-for-result: blockingDonePool.Put(bd) closes the critical section.  It is modelled
+                       BEFORE the Signal: if the Signal blocks it blocks holding the mutex, and nobody can Get
+                       (Get happens under the mutex) until it has returned, so the order is unobservable *)
+                    let s1' := if wfr c then s1 else pool_put id s1 in
+                    signal (if wfr c then PendRes id e else PendNone) (set_size (size s1' - sz) s1')
                 | Pers => signal PendNone (set_size (Z.max 0 (size s1 - sz)) s1)
                 end in
       Some (s2, match lock s2 with Free => 0 | _ => c_sigblocked end)
@@ -207,7 +245,9 @@ Inductive label :=
 | LDone (id : nat) (e : Z)      (* the consumer calls done.OnDone(err) for a handed-off request *)
 | LResult (p : nat)             (* wait_for_result: case doneErr := <-done.ch *)
 | LAwaitCtx (p : nat)           (* wait_for_result: case <-ctx.Done() *)
-| LShutdown.
+| LShutdown
+| LPick (b : nat)               (* environment: the next blockingDonePool.Get returns pooled object b (if pooled) *)
+| LObj (p b : nat).             (* observation only: "request p carries blockingDone b"; refused if it does not *)
 
 Definition lock_free (s : st) : bool := match lock s with Free => true | _ => false end.
 
@@ -264,7 +304,8 @@ Definition step (c : cfg) (s : st) (l : label) : option (st * Z) :=
       match pget p (prods s) with
       | Some PAwait =>
           match find_res p (results s) with
-          | Some e => Some (setp p (PRet (RRes e)) (set_results (remove_id p (results s)) s), 100 + e)
+          | Some e =>   (* doneErr := <-done.ch; blockingDonePool.Put(done); return doneErr *)
+              Some (pool_put p (setp p (PRet (RRes e)) (set_results (remove_id p (results s)) s)), 100 + e)
           | None => None
           end
       | _ => None
@@ -275,6 +316,11 @@ Definition step (c : cfg) (s : st) (l : label) : option (st * Z) :=
       | _ => None
       end
   | LShutdown => if lock_free s then Some (set_stopped true s, 0) else None
+  | LPick b => Some (set_pick b s, 0)
+  | LObj p b => match hget p (held s) with
+                | Some b' => if Nat.eqb b' b then Some (s, 0) else None
+                | None => None
+                end
   end.
 
 Fixpoint run (c : cfg) (s : st) (ls : list label) : option st :=
@@ -298,7 +344,7 @@ Definition reachable (c : cfg) (s : st) : Prop :=
    opposed to the environment's (a new Offer, a cancellation, Shutdown) *)
 Definition internal (l : label) : bool :=
   match l with
-  | LOffer _ _ | LCancel _ | LShutdown => false
+  | LOffer _ _ | LCancel _ | LShutdown | LPick _ | LObj _ _ => false
   | _ => true
   end.
 
